@@ -257,6 +257,9 @@ def explore(prop: Property, tier: str, seed: int = 0, verbose: bool = True) -> i
             if idx in results:
                 k = conf[j][0]
                 confluence_checked += 1
+                # the second construction order is a state of its own for the invariant
+                for v in results[idx][1]:
+                    _record(prop, v, h, known, known_hits, viol_groups)
                 if seen.get(k) and seen[k][0] is not None and results[idx][3] != seen[k][0]:
                     v = violation("confluence", {"what": "same content, different construction order"},
                                   first_history=json.loads(seen[k][1]), first_outcome=seen[k][0],
